@@ -286,6 +286,12 @@ fn signed_case() -> BoxedStrategy<Case> {
             }),
         2 => Just(Some(json!({"jwk": {"kty":"RSA","n":"zq8z7ZiJ_3uxqesadYwmK3SFnfcLBF9FB_-JUFNLViqBARrsBl8Ekpgn6TDmYu80L4K39WuA_kEXFExmOR4N__c9Z8w455m9WOMNjDS3btSqQR03IeMfkUE76poOzbNZ1yl_KOuiWidL2uePqCgCf5kqzVXC1Iszm_CtQrvuZrdNxQcwDgxdOkOdDv75LmZoMIOU5O_T8bC_fyO4vUEF3VZ6KC-FPxCm857u09MNRA4sGb7wwoRf-E0_8k0Ig_WCwhEXXbT14UFCij3sEA30PhPYtpovFm02kZBU_1BGKle93UgWvMuJihInS27VvHQ0ZRgnxZh3zRf-WudCuisG7Q","e":"AQAB"}}))),
         1 => Just(Some(json!({"jwk": {"kty":"oct","k":"c2VjcmV0LXNlY3JldC1zZWNyZXQtc2VjcmV0"}}))),
+        // EC keys on curves other than P-256, an OKP key of another curve, unknown curve names
+        1 => Just(Some(json!({"jwk": {"kty":"EC","crv":"P-384","x":"ThGV3wIN5Z4NZaM6QnnxGD565OXZgOMJ-LVa3_LmHD71X_FvZvQzYCZrldtvj-wB","y":"wCwLll4COr7oCPK1SNjVGTqLUim-bzEhpvFuLUGkSbN9yW93bIQj5XonhUiaP5xD"}}))),
+        1 => Just(Some(json!({"jwk": {"kty":"EC","crv":"P-521","x":"EixZcIO9Q4t_bXKvddAllIiZZHcRuAa90s2C-mlxPbPQ9jHKHduo2zvPy54FfNyY0DefG-4A51pUUUeifa3ZgpwK","y":"CtUuM4ZiySOxX9Rac8bpczbvzPKKeu-USUQ8xt10FfuLU2OfFSyPxu8wgC_eRiugvpzwhfdYDcae_XLgAqu7NeeI"}}))),
+        1 => Just(Some(json!({"jwk": {"kty":"EC","crv":"secp256k1","x":"XIjnoibhGtEgTLjTDNXW_2y6abwy2nMTSSjhfJDFQIY","y":"hlqw0xfzaWXkPSDSdbVFpncxN62tGdsdYey4Ay9HPgs"}}))),
+        1 => Just(Some(json!({"jwk": {"kty":"OKP","crv":"Ed448","x":"8hsO-J2O5dr2umzUQWUqZHIplB6FsVN7XDXt5rTVGahxFDD2Fk6TgD2TQovB-rgPQeITuxl2iTB9"}}))),
+        1 => Just(Some(json!({"jwk": {"kty":"OKP","crv":"X25519","x":"24fO5SUEylcyutSd2x1bhVHAEcGJGZbViqyuR_Zlhe0"}}))),
         1 => Just(Some(json!({"jwk": 5}))),
         1 => Just(Some(json!({"jwk": {}}))),
         1 => Just(Some(json!({"jwk": {"kty": "EC"}}))),
